@@ -14,11 +14,12 @@ import time
 
 
 class T:
-    __slots__ = ("s", "sort")
+    __slots__ = ("s", "sort", "conj")
 
-    def __init__(self, s, sort):
+    def __init__(self, s, sort, conj=None):
         self.s = s
         self.sort = sort
+        self.conj = conj      # for conjunctions: the list of conjuncts (lets goals be split into obligations)
 
     def __repr__(self):
         return f"T({self.s}:{self.sort})"
@@ -54,7 +55,10 @@ def And(*ts):
         return TRUE
     if len(flat) == 1:
         return flat[0]
-    return T("(and " + " ".join(t.s for t in flat) + ")", "Bool")
+    conj = []
+    for t in flat:
+        conj += t.conj if t.conj else [t]
+    return T("(and " + " ".join(t.s for t in flat) + ")", "Bool", conj=conj)
 
 
 def Or(*ts):
